@@ -10,7 +10,33 @@ CRATE = 'simple-dns'
 def tasks(tier, params):
     lmax = params.get('L_thorough', 8) if tier == 'thorough' else params.get('L_quick', 6)
     n = params.get('N_thorough', 12) if tier == 'thorough' else params.get('N_quick', 8)
-    return [('L%d' % L, {'L': L, 'N': n, 'mode': params.get('mode', 'equiv')}) for L in range(0, lmax + 1)]
+    out = [('L%d' % L, {'L': L, 'N': n, 'mode': params.get('mode', 'equiv')}) for L in range(0, lmax + 1)]
+    if params.get('mode', 'equiv') == 'equiv':
+        for k, (lay, start) in enumerate(big_layouts()):
+            out.append(('big%d' % k, {'L': len(lay), 'N': 140, 'mode': 'equiv', 'layout': lay, 'start': start}))
+    return out
+
+
+def big_layouts():
+    """boundary shapes: structure octets concrete, label contents symbolic ('s').  63/64-byte labels and
+    254/255/256-byte names, written out and reached through a compression pointer."""
+    def name(lens, end=(0,)):
+        lay = []
+        for l in lens:
+            lay.append(l)
+            lay += ['s'] * l
+        return lay + list(end)
+    outs = []
+    for lens in ([63], [64], [63, 63, 63, 61], [63, 63, 63, 62], [63, 63, 63, 60], [63, 63, 63, 63], [1] * 127, [1] * 128):
+        outs.append((name(lens), 0))
+    base = name([63, 63, 63, 59])                 # 253 octets at offset 0
+    for extra in ([1], [2], [1, 1]):
+        lay = base + name(extra, end=(0xC0, 0))
+        outs.append((lay, len(base)))
+    # pointer into the middle of the base name, and a two-hop chain
+    lay = base + [0xC0, 64] + [0xC0, len(base)]
+    outs.append((lay, len(base) + 2))
+    return outs
 
 
 # ----------------------------------------------------------------------------- reference decoder
@@ -84,15 +110,20 @@ def label_views(I, name):
 def run_task(prog, tid, params, tier):
     L, N, mode = params['L'], params['N'], params['mode']
     f = prog.methods[('Name', 'parse')][0][1]
-    syms = X.sym_bytes('b', L)
-    pos0 = sym('pos', 'usize')
+    if 'layout' in params:
+        syms = [sym('b%d' % i, 'u8') if v == 's' else mk('u8', v) for i, v in enumerate(params['layout'])]
+        pos0 = mk('usize', params['start'])
+    else:
+        syms = X.sym_bytes('b', L)
+        pos0 = sym('pos', 'usize')
     stats = {}
     covers = {'ok': 0, 'err': 0, 'pointer_ok': 0}
     found = {}
 
     def run(I):
         buf = X.byte_buffer(I, syms)
-        I.ctx.assume(z3.ULE(pos0.z(), L))
+        if not pos0.concrete:
+            I.ctx.assume(z3.ULE(pos0.z(), L))
         cell = Cell(pos0, 'pos')
         r = I.call_function(f, [buf, Ref(cell)], {})
         I.real = (r, cell.v)
@@ -103,7 +134,7 @@ def run_task(prog, tid, params, tier):
     def cex(res, detail, expect):
         m = res.ctx.model()
         bs = X.model_bytes(m, syms)
-        p = m.eval(pos0.z(), model_completion=True).as_long()
+        p = pos0.e if pos0.concrete else m.eval(pos0.z(), model_completion=True).as_long()
         return {'status': 'violation', 'detail': detail, 'role': 'any',
                 'cex': {'entry': 'name_parse', 'bytes': bs, 'pos': p, 'expect': expect}}
 
@@ -141,8 +172,8 @@ def run_task(prog, tid, params, tier):
             if res.ctx.check(z3.Or(diffs)):
                 m = res.ctx.solver.model()
                 bs = X.model_bytes(m, syms)
-                p = m.eval(pos0.z(), model_completion=True).as_long()
-                ev = lambda sc: m.eval(sc.z(), model_completion=True).as_long()
+                p = pos0.e if pos0.concrete else m.eval(pos0.z(), model_completion=True).as_long()
+                ev = lambda sc: sc.e if sc.concrete else m.eval(sc.z(), model_completion=True).as_long()
                 ref_labels = [''.join('%02x' % b for b in bs[ev(s):ev(s) + ev(l)]) for s, l in theirs]
                 return {'status': 'violation', 'detail': 'labels / resume position differ from the RFC 1035 decoder',
                         'role': 'any',
@@ -173,7 +204,11 @@ def run_task(prog, tid, params, tier):
         out.update(v)
         return out
     # vacuity: from length 1 on both an accepting and a rejecting path must exist
-    if L >= 1 and not (covers['ok'] and covers['err']):
+    if 'layout' in params:
+        if not (covers['ok'] or covers['err']):
+            out['status'] = 'inconclusive'
+            out['detail'] = 'vacuous'
+    elif L >= 1 and not (covers['ok'] and covers['err']):
         out['status'] = 'inconclusive'
         out['detail'] = 'vacuous: covers %r' % (covers,)
     return out
